@@ -167,19 +167,22 @@ Proof.
   cbn [loop]. rewrite H1. cbn [andb negb]. rewrite H5, H2, H3, H4. reflexivity.
 Qed.
 Lemma loop_arg g len fuel p st tok rest :
-  (p = true -> nonempty tok = true /\ starts_dash tok = false) ->
+  (p = true -> pos_tok tok = true) ->
   loop (S fuel) g len p st (tok :: rest) =
   match parse_argument g len st tok with
   | Ok st' => loop fuel g len p st' rest
   | Err k => (st, Some k)
   end.
 Proof.
-  intros H. cbn [loop]. destruct p; [|reflexivity]. destruct (H eq_refl) as [H1 H2]. rewrite H1. cbn [andb negb].
+  intros H. cbn [loop]. destruct p; [|reflexivity]. specialize (H eq_refl). cbn [andb].
+  destruct (nonempty tok) eqn:H1; [|reflexivity]. cbn [negb].
+  unfold pos_tok in H. destruct (str_eqb_spec tok [DASH]) as [->|Hne]; [reflexivity|].
+  rewrite orb_false_r in H. apply negb_true_iff in H.
   assert (is_dd tok = false) as H3.
-  { unfold is_dd. destruct (str_eqb_spec tok [DASH; DASH]) as [->|]; [discriminate H2|reflexivity]. }
+  { unfold is_dd. destruct (str_eqb_spec tok [DASH; DASH]) as [->|]; [discriminate H|reflexivity]. }
   assert (starts_dd tok = false) as H4.
-  { destruct tok as [|a [|b r]]; try reflexivity. cbn in H2 |- *. rewrite H2. reflexivity. }
-  rewrite H3, H4, H2. reflexivity.
+  { destruct tok as [|a [|b r]]; try reflexivity. cbn in H |- *. rewrite H. reflexivity. }
+  rewrite H3, H4, H. reflexivity.
 Qed.
 Lemma loop_dd g len fuel st rest :
   loop (S fuel) g len true st ([DASH; DASH] :: rest) = loop fuel g len false st rest.
